@@ -122,7 +122,7 @@ theorem C03_element_fixpoint (dd : DDesc) (scale ref : Int) (n raw : Nat)
     · simp only [numVal]
       rw [numericField_value _ scale ref _ n (scaleVal_ne_missing _ _) (quantise_scaleVal _ _)]
       have : (raw : Int) + ref - ref = (raw : Int) := by omega
-      rw [this, fieldUInt_nat n raw h0 hr]
+      rw [this, fieldUInt_ofNat n raw h0 hr]
       rfl
   · unfold canonUInt
     split
@@ -170,7 +170,7 @@ theorem C03_accepts_in_range (dd : DDesc) (scale ref : Int) (n : Nat) (s : St) (
   have h2 : (q - ref).toNat < 2 ^ n := by
     have : (((q - ref).toNat : Nat) : Int) < ((2 ^ n : Nat) : Int) := by rw [h1]; simpa using hhi
     exact_mod_cast this
-  rw [← h1, fieldUInt_nat n _ h0 h2, h1]; rfl
+  rw [← h1, fieldUInt_ofNat n _ h0 h2, h1]; rfl
 
 /-- the same for code / flag (and associated, skipped) fields -/
 theorem C03_codeflag_refuses_out_of_range (dd : DDesc) (n : Nat) (s : St) (i : Int)
@@ -224,7 +224,7 @@ theorem C03_all_ones_is_missing (dd : DDesc) (scale ref : Int) (n : Nat) (s : St
   have hp : 2 ^ n - 1 < 2 ^ n := by have := Nat.two_pow_pos n; omega
   constructor
   · rw [encNumericU_eq dd _ scale ref s v n hv (natWidth_ofNat n (by omega)),
-      numericField_value v scale ref q n hm hq, hq1, fieldUInt_nat n _ (by omega) hp, toBits_max]
+      numericField_value v scale ref q n hm hq, hq1, fieldUInt_ofNat n _ (by omega) hp, toBits_max]
     rfl
   · intro sd suf hb
     have := (C03_element_fixpoint dd scale ref n (2 ^ n - 1) (by omega) h64 hp).1 sd suf
@@ -482,9 +482,9 @@ theorem C03_element_fixpoint_codeflag (dd : DDesc) (n raw : Nat)
     · next hc =>
       have hp : 2 ^ n - 1 < 2 ^ n := by omega
       simp only [uintVal, codeflagField, missingPattern_ok n h64, Except.bind,
-        fieldUInt_nat n _ h0 hp, Except.map]
+        fieldUInt_ofNat n _ h0 hp, Except.map]
       rw [hc.2]
-    · simp only [uintVal, codeflagField, fieldUInt_nat n raw h0 hr, Except.map]
+    · simp only [uintVal, codeflagField, fieldUInt_ofNat n raw h0 hr, Except.map]
 
 /-- Element fixpoint for character fields: the `k` bytes come back as they are and are written back as they are. -/
 theorem C03_element_fixpoint_string (dd : DDesc) (b : List UInt8) :
